@@ -336,7 +336,7 @@ package kcache
 @*/
 
 /*@ func (*kcache.filterSubscription).run
-  props C08 C06 C07 C11
+  props C08 C06 C07 C11 C12
   theory actors filters
   requires [valid-s] (and (not (= {s} vnil)) (not (= {s.parent} vnil)) (not (= {s.cache} vnil)) (not (= {s.lc} vnil))
                         (not (= {s.log} vnil)) (not (= {s.readych} vnil)) (not (= {s.refilterch} vnil)) (not (= {s.outch} vnil))
@@ -782,7 +782,32 @@ package kcache
 /*@ func (*kcache._lister).list
   props C13 C12
   requires (and (not (= {l} vnil)) (not (= {l.lc} vnil)) (not (= {l.ctx} vnil)))
+  ghost cancellerSpawned : Bool := false
+  ghost listSpawned : Bool := false
+  at call(WithCancel) assert [per-call-context-derived-from-the-listers-context] (= $0 {l.ctx})
+  at go(list$1) set cancellerSpawned := true
+  at go(list$2) set listSpawned := true
+  exit [the-in-flight-list-is-cancelled-on-shutdown-and-its-completion-is-signalled] (and cancellerSpawned listSpawned)
   ensures [channels-of-the-new-list-call] (and (not (= result0 vnil)) (not (= result1 vnil)))
+@*/
+/*@ func (*kcache._lister).list$1
+  props C12 C13
+  requires (and (not (= {l} vnil)) (not (= {l.lc} vnil)) (not (= {donech} vnil)) (not (= {cancel} vnil)))
+  ghost waited : Bool := false
+  ghost cancelled : Bool := false
+  at recv() set waited := true
+  at call(ShuttingDown) assert [waits-for-the-listers-own-shutdown] (= $recv {l.lc})
+  at call(dyncall) assert [cancels-the-per-call-context-after-shutdown-or-completion] (and waited (= $fn {cancel}))
+  at call(dyncall) set cancelled := true
+  exit [always-cancels] cancelled
+@*/
+/*@ func (*kcache._lister).list$2
+  props C12 C13
+  requires (and (not (= {l} vnil)) (not (= {runch} vnil)) (not (= {donech} vnil)) (not (= {l.client} vnil)) (not (= {l.log} vnil)) (not {closed(donech)}) (not {closed(runch)}))
+  ghost sentResult : Bool := false
+  at call(executeList) assert [lists-with-the-cancellable-per-call-context] (= $1 {ctx})
+  at send(runch) set sentResult := true
+  at close(donech) assert [completion-signalled-after-the-result-was-handed-over] sentResult
 @*/
 /*@ assumed func context.WithCancel
   ensures (and (not (= result0 vnil)) (not (= result1 vnil)))
@@ -792,7 +817,7 @@ package kcache
 @*/
 
 /*@ func (*kcache._lister).run
-  props C13 C12 C03
+  props C13 C12 C03 C14
   theory lists
   requires [valid-l] (and (not (= {l} vnil)) (not (= {l.lc} vnil)) (not (= {l.ctx} vnil)) (not (= {l.resultch} vnil)) (not (= {l.client} vnil)) (not (= {l.log} vnil)))
   requires [has-closed-nothing] (forall ((x V)) (not (select $closed x)))
